@@ -20,6 +20,7 @@ package resolver
 
 import (
 	"crypto"
+	"crypto/ed25519"
 	"errors"
 	"fmt"
 	"github.com/nuts-foundation/go-did/did"
@@ -86,15 +87,29 @@ func (r DIDKeyResolver) ResolveKeyByID(keyID string, metadata *ResolveMetadata, 
 		}
 		localKeyId := rel.ID.String()
 		if localKeyId == keyID {
-			return rel.PublicKey()
+			return publicKeyOf(rel)
 		} else if baseUrl != nil && strings.HasPrefix(localKeyId, "#") {
 			localKeyId = *baseUrl + localKeyId
 			if localKeyId == keyID {
-				return rel.PublicKey()
+				return publicKeyOf(rel)
 			}
 		}
 	}
 	return nil, ErrKeyNotFound
+}
+
+// publicKeyOf returns the public key of the verification method.
+// Keys that can't be used safely are refused: the document is not ours, and signature verification with an Ed25519 public key
+// that is not exactly 32 bytes long (malformed JWK 'x' or base58 value) panics.
+func publicKeyOf(relationship did.VerificationRelationship) (crypto.PublicKey, error) {
+	publicKey, err := relationship.PublicKey()
+	if err != nil {
+		return nil, err
+	}
+	if edKey, ok := publicKey.(ed25519.PublicKey); ok && len(edKey) != ed25519.PublicKeySize {
+		return nil, fmt.Errorf("invalid Ed25519 public key length: %d (id=%s)", len(edKey), relationship.ID.String())
+	}
+	return publicKey, nil
 }
 
 // baseUrl returns the base URL of the given DID Document.
@@ -137,7 +152,7 @@ func (r DIDKeyResolver) ResolveKey(id did.DID, validAt *time.Time, relationType 
 			// unresolved (e.g. empty) reference
 			continue
 		}
-		publicKey, err := key.PublicKey()
+		publicKey, err := publicKeyOf(key)
 		if err != nil {
 			return "", nil, err
 		}
